@@ -15,6 +15,7 @@ From Coq Require Import ZArith List Bool.
 From CAres.Base Require Import Outcome.
 From CAres.Gen Require Import Consts.
 From CAres.Core Require Import Accept Accept_proofs.
+From CAres.Core Require Cookie Accept_cookie_equiv.
 Import ListNotations.
 Local Open Scope Z_scope.
 
@@ -176,9 +177,9 @@ Proof. exact example_forged_packets_dropped_stmt. Qed.
 Print Assumptions C05_example_forged_packets_dropped.
 
 (* the stronger reading "a packet failing any conjunct changes NO query, cache or server state"
-   does not hold for datagrams that do not parse: from the server's address they close the
-   connection, mark the server failed and cost every query on it one try (no data is supplied:
-   C05_malformed_no_data) *)
+   does not hold, WITHOUT fixes/C05-udp-garbage-drop.patch, for datagrams that do not parse: from
+   the server's address they close the connection, mark the server failed and cost every query
+   on it one try (no data is supplied: C05_malformed_no_data) *)
 Theorem C05_forgery_inert_refuted_for_malformed_datagrams :
   exists tr st,
     run_trace (w_cfg true true true) (init_chan w_servers) w_malformed = Ok (tr, st) /\
@@ -186,3 +187,43 @@ Theorem C05_forgery_inert_refuted_for_malformed_datagrams :
     map q_try (ch_queries st) = [1] /\ map q_conn (ch_queries st) = [None] /\ ch_conns st = [].
 Proof. exact malformed_not_inert_stmt. Qed.
 Print Assumptions C05_forgery_inert_refuted_for_malformed_datagrams.
+
+(* ABOUT A VARIANT THAT IS NOT THE CODE IN /repo (hardening patch proposed, not applied):
+   with fixes/C05-udp-garbage-drop.patch ([cf_udp_garbage_drop]) an empty or unparsable UDP
+   datagram is inert as well, so on UDP EVERY datagram that is not an authentic response changes
+   nothing but cookie bookkeeping (this theorem + C05_forgery_inert + C05_foreign_source_inert);
+   on TCP an unparsable frame still terminates the connection *)
+Theorem C05_udp_garbage_inert : forall cfg st c src s u d cn sv,
+  cf_udp_garbage_drop cfg = true -> cf_fix_zerolen cfg = true ->
+  find_conn st c = Some cn -> find_server st (cn_server cn) = Some sv -> cn_tcp cn = false ->
+  (d = DEmpty \/ exists t, d = DMalformed t) ->
+  exists st1, step cfg st (ERead c src s u d) = Ok (st1, []) /\ same_but_cookies st1 st.
+Proof. exact udp_garbage_inert. Qed.
+Print Assumptions C05_udp_garbage_inert.
+
+Theorem C05_example_malformed_dropped_with_patch :
+  exists tr st,
+    run_trace w_cfg_drop (init_chan w_servers) w_malformed = Ok (tr, st) /\
+    map (fun x => snd x) (skipn 3 tr) = [[]] /\
+    map q_try (ch_queries st) = [0] /\ map q_conn (ch_queries st) = [Some 10].
+Proof. exact malformed_inert_with_drop_stmt. Qed.
+Print Assumptions C05_example_malformed_dropped_with_patch.
+
+(* ---- glue to C17: the cookie decision inside the accept path (Accept.cookie_decide) is the
+   decision of the cookie component model (Cookie.cookie_validate, property C17), under the
+   abstraction rel_ck that forgets what the accept path never reads ------------------------- *)
+Theorem C05_cookie_decision_agrees_with_cookie_component :
+  forall (a : Accept.cookie) (c : Cookie.cookie) (reqc resp : option Accept.bytes)
+         (rcode s u tr : Z) (tcp sent : bool),
+  Accept_cookie_equiv.rel_ck a c -> Accept.zlen (Accept.ck_client a) = 8 ->
+  Accept.cookie_len_ok reqc = true -> Cookie.norm_cookie resp = resp -> 0 <= tr < 2 ^ 64 - 1 ->
+  exists a' d c' q' status rq,
+    Accept.cookie_decide a reqc resp rcode s u = Ok (a', d) /\
+    Cookie.cookie_validate c (Cookie.mkQ (Accept_cookie_equiv.req_of reqc) tr tcp sent) resp rcode
+                           (Cookie.mkTv s u) = Ok (c', q', status, rq) /\
+    Accept_cookie_equiv.rel_ck a' c' /\ Accept_cookie_equiv.agree d status rq /\
+    (d <> Accept.CRequeue -> q' = Cookie.mkQ (Accept_cookie_equiv.req_of reqc) tr tcp sent) /\
+    (d = Accept.CRequeue -> Cookie.q_try q' = tr + 1 /\
+                            Cookie.q_tcp q' = (if COOKIE_RESEND_MAX <=? tr + 1 then true else tcp)).
+Proof. exact Accept_cookie_equiv.cookie_decide_agrees. Qed.
+Print Assumptions C05_cookie_decision_agrees_with_cookie_component.
